@@ -31,6 +31,39 @@ impl Cell {
 //@use cell.fns Cell::to_usize assumed
 //@use cell.fns Cell::bitstr assumed
 //@use cell.fns Cell::to_bitstr assumed
+//@use cell.fns Cell::vec assumed
+//@use cell.fns Cell::with_tags assumed
+//@use cell.fns Cell::insert_tag assumed
+//@use cell.fns Cell::get_tag assumed
+}
+impl vstd::std_specs::convert::FromSpecImpl<i128> for Cell {
+    open spec fn obeys_from_spec() -> bool { true }
+    open spec fn from_spec(x: i128) -> Cell { Cell::Int(x) }
+}
+impl From<i128> for Cell {
+//@use cell.fns "impl From<i128> for Cell"::from
+}
+impl vstd::std_specs::convert::FromSpecImpl<f64> for Cell {
+    open spec fn obeys_from_spec() -> bool { true }
+    open spec fn from_spec(x: f64) -> Cell { Cell::Real(x) }
+}
+impl From<f64> for Cell {
+//@use cell.fns "impl From<f64> for Cell"::from
+}
+impl vstd::std_specs::convert::FromSpecImpl<Xvec> for Cell {
+    open spec fn obeys_from_spec() -> bool { true }
+    open spec fn from_spec(x: Xvec) -> Cell { Cell::Vector(x) }
+}
+impl From<Xvec> for Cell {
+//@use cell.fns "impl From<Xvec> for Cell"::from
+}
+impl Xvec {
+    #[verifier::external_body] pub fn push_back(&self, c: Cell) -> (r: Xvec) ensures r@ == self@.push(c) { unimplemented!() }
+    #[verifier::external_body] pub fn last(&self) -> (r: Option<&Cell>) ensures self@.len() > 0 ==> r == Some(&self@.last()), self@.len() == 0 ==> r is None { unimplemented!() }
+    #[verifier::external_body] pub fn drop_last(&self) -> (r: Option<Xvec>) ensures self@.len() > 0 ==> r is Some && r->0@ == self@.drop_last(), self@.len() == 0 ==> r is None { unimplemented!() }
+}
+impl Xerr {
+    #[verifier::external_body] pub fn out_of_bounds(idx: usize, len: usize) -> Xerr { unimplemented!() }
 }
 impl vstd::std_specs::convert::FromSpecImpl<usize> for Cell {
     open spec fn obeys_from_spec() -> bool { true }
@@ -64,6 +97,24 @@ impl State {
 //@use cursor.fns ::word_remain
 //@use cursor.fns ::word_bitstr
 //@use cursor.fns ::word_bytes
+//@use cursor.fns ::bitstr_num_tags
+//@use cursor.fns ::float_len_err
+//@use cursor.fns ::read_unsigned
+//@use cursor.fns ::read_signed
+//@use cursor.fns ::read_float
+//@use cursor.fns ::open_bitstr
+//@use cursor.fns ::word_close_bitstr
+
+// R14: the number codecs of src/bitstr.rs, decided by the Kani families of C05; here their
+// contract is "a function of the bit sequence and the byte order"
+#[verifier::external_body] fn verif_to_uint(s: &Bitstr, order: Byteorder) -> (r: u128)
+    requires s.view().len() <= 128 ensures r == uint_of(s.view(), order), s.view().len() <= 127 ==> r <= i128::MAX { unimplemented!() }
+#[verifier::external_body] fn verif_to_int(s: &Bitstr, order: Byteorder) -> (r: i128)
+    requires s.view().len() <= 128 ensures r == int_of(s.view(), order) { unimplemented!() }
+#[verifier::external_body] fn verif_to_f32(s: &Bitstr, order: Byteorder) -> (r: f32) ensures r == f32_of(s.view(), order) { unimplemented!() }
+#[verifier::external_body] fn verif_to_f64(s: &Bitstr, order: Byteorder) -> (r: f64) ensures r == f64_of(s.view(), order) { unimplemented!() }
+// R3k: the tag key constant OFFSET_LIT (a string literal cell)
+#[verifier::external_body] fn verif_offset_lit() -> (r: Cell) ensures r == offset_lit() { unimplemented!() }
 
 } // verus!
 fn main() {}
